@@ -266,6 +266,41 @@ def renumber (ifaces : AMap IfaceE) (k : Int) : List Nat → AMap IfaceE
       else renumber ifaces k rest
     | none => renumber ifaces k rest
 
+/-- the `messageStaticCANIDs` index of bus `pb` (if there is one) updated by `f` -/
+def updStatic (B : AMap BusE) (pb : Option Nat) (f : Reg Nat → Reg Nat) : AMap BusE :=
+  match pb with
+  | none => B
+  | some b => match B.get b with
+    | some bus => B.set b { bus with staticIDs := f bus.staticIDs }
+    | none => B
+
+/-- `Bus.verifyStaticCANID` on bus `pb` (if there is one) refuses `c` -/
+def busStaticClash (B : AMap BusE) (pb : Option Nat) (c : Nat) : Bool :=
+  match pb with
+  | none => false
+  | some b => match B.get b with | some bus => bus.staticIDs.has c | none => false
+
+/-- `removeRef(x)` on the builder `old` (if there is one) -/
+def dropBuilderRef (C : AMap BuilderE) (old : Option Nat) (x : Nat) : AMap BuilderE :=
+  match old with
+  | none => C
+  | some o => match C.get o with
+    | some e => C.set o { e with refs := eraseRef e.refs x }
+    | none => C
+
+/-- `removeRef(x)` on the signal type / unit `old` (if there is one) -/
+def dropDefRef (T : AMap DefE) (old : Option Nat) (x : Nat) : AMap DefE :=
+  match old with
+  | none => T
+  | some o => match T.get o with
+    | some e => T.set o { e with refs := eraseRef e.refs x }
+    | none => T
+
+/-- the interfaces created by `NewNode`: numbered `start, start+1, …` in list order -/
+def newIfaces (ifaces : AMap IfaceE) (n : Nat) (start : Nat) : List Nat → AMap IfaceE
+  | [] => ifaces
+  | i :: rest => newIfaces (ifaces.set i { node := n, number := (start : Int) }) n (start + 1) rest
+
 /-- `Bus.RemoveNodeInterface(nodeEntityID)` as a state transformer (shared by two ops) -/
 def busRemoveIfaceCore (g : G) (b nodeId : Nat) : G × Out :=
   match g.buses.get b with
@@ -310,469 +345,509 @@ def addRecvCore (g : G) (i : Nat) (ifc : IfaceE) (m : Nat) (msg : MsgE) : G × O
     ({ g with ifaces := g.ifaces.set i { ifc with received := ifc.received.add m m },
               msgs := g.msgs.set m { msg with receivers := msg.receivers.add ifc.node i } }, .ok)
 
-def step (g : G) : Op → G × Out
-  | .netNew n name =>
-    if (g.nets.get n).isSome then (g, .unsupported)
-    else ({ g with nets := g.nets.set n { name := name } }, .ok)
-  | .netAddBus n b =>
-    match g.nets.get n with
-    | none => (g, .unsupported)
-    | some net =>
-      match g.buses.get b with
-      | none => (g, .err .nil)
+/-! One function per operation (the arms of `step`), so that each can be unfolded alone. -/
+
+def stepNetNew (g : G) (n : Nat) (name : String) : G × Out :=
+  if (g.nets.get n).isSome then (g, .unsupported)
+  else ({ g with nets := g.nets.set n { name := name } }, .ok)
+
+def stepNetAddBus (g : G) (n : Nat) (b : Nat) : G × Out :=
+  match g.nets.get n with
+  | none => (g, .unsupported)
+  | some net =>
+    match g.buses.get b with
+    | none => (g, .err .nil)
+    | some bus =>
+      if bus.parent.isSome then (g, .unsupported)
+      else if net.busNames.has bus.name then (g, .err .duplicated)
+      else
+        ({ g with nets := g.nets.set n { net with buses := net.buses.add b b, busNames := net.busNames.add bus.name b },
+                  buses := g.buses.set b { bus with parent := some n } }, .ok)
+
+def stepNetRemoveBus (g : G) (n : Nat) (b : Nat) : G × Out :=
+  match g.nets.get n with
+  | none => (g, .unsupported)
+  | some net =>
+    if ¬ net.buses.has b then (g, .err .notFound)
+    else match g.buses.get b with
+      | none => (g, .unsupported)
       | some bus =>
-        if bus.parent.isSome then (g, .unsupported)
-        else if net.busNames.has bus.name then (g, .err .duplicated)
-        else
-          ({ g with nets := g.nets.set n { net with buses := net.buses.add b b, busNames := net.busNames.add bus.name b },
-                    buses := g.buses.set b { bus with parent := some n } }, .ok)
-  | .netRemoveBus n b =>
-    match g.nets.get n with
-    | none => (g, .unsupported)
-    | some net =>
-      if ¬ net.buses.has b then (g, .err .notFound)
-      else match g.buses.get b with
+        ({ g with nets := g.nets.set n { net with buses := net.buses.remove b, busNames := net.busNames.remove bus.name },
+                  buses := g.buses.set b { bus with parent := none } }, .ok)
+
+def stepNetRemoveAllBuses (g : G) (n : Nat) : G × Out :=
+  match g.nets.get n with
+  | none => (g, .unsupported)
+  | some net =>
+    ({ g with buses := clearBusParents g.buses net.buses.vals,
+              nets := g.nets.set n { net with buses := [], busNames := [] } }, .ok)
+
+def stepBusNew (g : G) (b : Nat) (name : String) : G × Out :=
+  if (g.buses.get b).isSome then (g, .unsupported)
+  else ({ g with buses := g.buses.set b { name := name } }, .ok)
+
+def stepBusRename (g : G) (b : Nat) (name : String) : G × Out :=
+  match g.buses.get b with
+  | none => (g, .unsupported)
+  | some bus =>
+    if bus.name = name then (g, .ok)
+    else match bus.parent with
+      | none => ({ g with buses := g.buses.set b { bus with name := name } }, .ok)
+      | some n =>
+        match g.nets.get n with
         | none => (g, .unsupported)
-        | some bus =>
-          ({ g with nets := g.nets.set n { net with buses := net.buses.remove b, busNames := net.busNames.remove bus.name },
-                    buses := g.buses.set b { bus with parent := none } }, .ok)
-  | .netRemoveAllBuses n =>
-    match g.nets.get n with
-    | none => (g, .unsupported)
-    | some net =>
-      ({ g with buses := clearBusParents g.buses net.buses.vals,
-                nets := g.nets.set n { net with buses := [], busNames := [] } }, .ok)
-  | .busNew b name =>
-    if (g.buses.get b).isSome then (g, .unsupported)
-    else ({ g with buses := g.buses.set b { name := name } }, .ok)
-  | .busRename b name =>
-    match g.buses.get b with
-    | none => (g, .unsupported)
-    | some bus =>
-      if bus.name = name then (g, .ok)
-      else match bus.parent with
-        | none => ({ g with buses := g.buses.set b { bus with name := name } }, .ok)
-        | some n =>
-          match g.nets.get n with
-          | none => (g, .unsupported)
-          | some net =>
-            if net.busNames.has name then (g, .err .duplicated)
-            else
-              ({ g with nets := g.nets.set n { net with busNames := (net.busNames.remove bus.name).add name b },
-                        buses := g.buses.set b { bus with name := name } }, .ok)
-  | .busAddIface b i =>
-    match g.buses.get b with
-    | none => (g, .unsupported)
-    | some bus =>
-      match g.ifaces.get i with
-      | none => (g, .err .nil)
-      | some ifc =>
-        if ifc.parentBus.isSome then (g, .unsupported)
-        else
-          let n := ifc.node
-          if bus.nodeNames.has (nodeName g n) then (g, .err .duplicated)
-          else if bus.nodeIDs.has (nodeNid g n) then (g, .err .duplicated)
+        | some net =>
+          if net.busNames.has name then (g, .err .duplicated)
           else
-            let msgs := ifc.sent.vals
-            -- the loop verifies size and static CAN-ID message by message (map order);
-            -- the cause of the first failing message is reported: sizes first is only
-            -- observable when both kinds of failure occur, see the harness canonicalisation
-            let tooBig : Bool := msgs.any (fun m => match g.msgs.get m with | some e => !busSizeOK e.sizeByte | none => false)
-            let statics := staticOf g msgs
-            let clash : Bool := statics.any (fun p => bus.staticIDs.has p.1)
-            if tooBig ∧ clash then (g, .err .tooBig)  -- order-dependent in Go; both are rejections
-            else if tooBig then (g, .err .tooBig)
-            else if clash then (g, .err .duplicated)
-            else
-              let bus' := { bus with staticIDs := addAll bus.staticIDs statics,
-                                     nodeInts := bus.nodeInts.add n i,
-                                     nodeNames := bus.nodeNames.add (nodeName g n) n,
-                                     nodeIDs := bus.nodeIDs.add (nodeNid g n) n }
-              ({ g with buses := g.buses.set b bus',
-                        ifaces := g.ifaces.set i { ifc with parentBus := some b } }, .ok)
-  | .busRemoveIface b nodeId => busRemoveIfaceCore g b nodeId
-  | .busRemoveAllIfaces b =>
-    match g.buses.get b with
-    | none => (g, .unsupported)
-    | some bus =>
-      ({ g with ifaces := clearIfaceBus g.ifaces bus.nodeInts.vals,
-                buses := g.buses.set b { bus with nodeInts := [], nodeNames := [], nodeIDs := [], staticIDs := [] } }, .ok)
-  | .busSetBuilder b c =>
-    match g.buses.get b with
-    | none => (g, .unsupported)
-    | some bus =>
-      -- removeRef on the old builder
-      let builders1 := match bus.builder with
-        | none => g.builders
-        | some old => match g.builders.get old with
-          | some e => g.builders.set old { e with refs := eraseRef e.refs b }
-          | none => g.builders
-      match c with
+            ({ g with nets := g.nets.set n { net with busNames := (net.busNames.remove bus.name).add name b },
+                      buses := g.buses.set b { bus with name := name } }, .ok)
+
+def stepBusAddIface (g : G) (b : Nat) (i : Nat) : G × Out :=
+  match g.buses.get b with
+  | none => (g, .unsupported)
+  | some bus =>
+    match g.ifaces.get i with
+    | none => (g, .err .nil)
+    | some ifc =>
+      if ifc.parentBus.isSome then (g, .unsupported)
+      else
+        let n := ifc.node
+        if bus.nodeNames.has (nodeName g n) then (g, .err .duplicated)
+        else if bus.nodeIDs.has (nodeNid g n) then (g, .err .duplicated)
+        else
+          let msgs := ifc.sent.vals
+          -- the loop verifies size and static CAN-ID message by message (map order);
+          -- the cause of the first failing message is reported: sizes first is only
+          -- observable when both kinds of failure occur, see the harness canonicalisation
+          let tooBig : Bool := msgs.any (fun m => match g.msgs.get m with | some e => !busSizeOK e.sizeByte | none => false)
+          let statics := staticOf g msgs
+          let clash : Bool := statics.any (fun p => bus.staticIDs.has p.1)
+          if tooBig ∧ clash then (g, .err .tooBig)  -- order-dependent in Go; both are rejections
+          else if tooBig then (g, .err .tooBig)
+          else if clash then (g, .err .duplicated)
+          else
+            let bus' := { bus with staticIDs := addAll bus.staticIDs statics,
+                                   nodeInts := bus.nodeInts.add n i,
+                                   nodeNames := bus.nodeNames.add (nodeName g n) n,
+                                   nodeIDs := bus.nodeIDs.add (nodeNid g n) n }
+            ({ g with buses := g.buses.set b bus',
+                      ifaces := g.ifaces.set i { ifc with parentBus := some b } }, .ok)
+
+def stepBusRemoveIface (g : G) (b : Nat) (nodeId : Nat) : G × Out :=
+  busRemoveIfaceCore g b nodeId
+
+def stepBusRemoveAllIfaces (g : G) (b : Nat) : G × Out :=
+  match g.buses.get b with
+  | none => (g, .unsupported)
+  | some bus =>
+    ({ g with ifaces := clearIfaceBus g.ifaces bus.nodeInts.vals,
+              buses := g.buses.set b { bus with nodeInts := [], nodeNames := [], nodeIDs := [], staticIDs := [] } }, .ok)
+
+def stepBusSetBuilder (g : G) (b : Nat) (c : Option Nat) : G × Out :=
+  match g.buses.get b with
+  | none => (g, .unsupported)
+  | some bus =>
+    -- removeRef on the old builder
+    let builders1 := dropBuilderRef g.builders bus.builder b
+    match c with
+    | none => ({ g with builders := builders1, buses := g.buses.set b { bus with builder := none } }, .ok)
+    | some cid =>
+      match builders1.get cid with
       | none => ({ g with builders := builders1, buses := g.buses.set b { bus with builder := none } }, .ok)
-      | some cid =>
-        match builders1.get cid with
-        | none => ({ g with builders := builders1, buses := g.buses.set b { bus with builder := none } }, .ok)
-        | some e =>
-          ({ g with builders := builders1.set cid { e with refs := addRef e.refs b },
-                    buses := g.buses.set b { bus with builder := some cid } }, .ok)
-  | .builderNew c =>
-    if (g.builders.get c).isSome then (g, .unsupported)
-    else ({ g with builders := g.builders.set c {} }, .ok)
-  | .nodeNew n name nid count ifs =>
-    -- `NewNode(name, id, interfaceCount)`: `make([]*NodeInterface, interfaceCount)` panics
-    -- for a negative count; `ifs` are the harness ids of the `count` new interfaces
-    if count < 0 then (g, .panic)
-    else if count ≠ (ifs.length : Int) then (g, .unsupported)
-    else if (g.nodes.get n).isSome ∨ ifs.any (fun i => (g.ifaces.get i).isSome) ∨ ¬ ifs.Nodup then (g, .unsupported)
+      | some e =>
+        ({ g with builders := builders1.set cid { e with refs := addRef e.refs b },
+                  buses := g.buses.set b { bus with builder := some cid } }, .ok)
+
+def stepBuilderNew (g : G) (c : Nat) : G × Out :=
+  if (g.builders.get c).isSome then (g, .unsupported)
+  else ({ g with builders := g.builders.set c {} }, .ok)
+
+def stepNodeNew (g : G) (n : Nat) (name : String) (nid : Nat) (count : Int) (ifs : List Nat) : G × Out :=
+  -- `NewNode(name, id, interfaceCount)`: a negative count is treated as zero; `ifs` are
+  -- the harness ids of the new interfaces
+  if (if count < 0 then 0 else count) ≠ (ifs.length : Int) then (g, .unsupported)
+  else if (g.nodes.get n).isSome ∨ ifs.any (fun i => (g.ifaces.get i).isSome) ∨ ¬ ifs.Nodup then (g, .unsupported)
+  else
+    let ifaces := newIfaces g.ifaces n 0 ifs
+    ({ g with nodes := g.nodes.set n { name := name, nid := nid, ifaces := ifs, ifaceCount := ifs.length },
+              ifaces := ifaces }, .ok)
+
+def stepNodeRename (g : G) (n : Nat) (name : String) : G × Out :=
+  match g.nodes.get n with
+  | none => (g, .unsupported)
+  | some nd =>
+    if nd.name = name then (g, .ok)
     else
-      let ifaces := (List.zip ifs (List.range ifs.length)).foldl
-        (fun acc p => acc.set p.1 { node := n, number := (p.2 : Int) }) g.ifaces
-      ({ g with nodes := g.nodes.set n { name := name, nid := nid, ifaces := ifs, ifaceCount := ifs.length },
-                ifaces := ifaces }, .ok)
-  | .nodeRename n name =>
-    match g.nodes.get n with
-    | none => (g, .unsupported)
-    | some nd =>
-      if nd.name = name then (g, .ok)
+      let bs := attachedBuses g nd.ifaces
+      if bs.any (fun b => match g.buses.get b with | some e => e.nodeNames.has name | none => false) then
+        (g, .err .duplicated)
       else
-        let bs := attachedBuses g nd.ifaces
-        if bs.any (fun b => match g.buses.get b with | some e => e.nodeNames.has name | none => false) then
-          (g, .err .duplicated)
-        else
-          ({ g with buses := renameNodeInBuses g.buses nd.name name n bs,
-                    nodes := g.nodes.set n { nd with name := name } }, .ok)
-  | .nodeSetId n nid =>
-    match g.nodes.get n with
-    | none => (g, .unsupported)
-    | some nd =>
-      if nd.nid = nid then (g, .ok)
+        ({ g with buses := renameNodeInBuses g.buses nd.name name n bs,
+                  nodes := g.nodes.set n { nd with name := name } }, .ok)
+
+def stepNodeSetId (g : G) (n : Nat) (nid : Nat) : G × Out :=
+  match g.nodes.get n with
+  | none => (g, .unsupported)
+  | some nd =>
+    if nd.nid = nid then (g, .ok)
+    else
+      let bs := attachedBuses g nd.ifaces
+      if bs.any (fun b => match g.buses.get b with | some e => e.nodeIDs.has nid | none => false) then
+        (g, .err .duplicated)
       else
-        let bs := attachedBuses g nd.ifaces
-        if bs.any (fun b => match g.buses.get b with | some e => e.nodeIDs.has nid | none => false) then
-          (g, .err .duplicated)
-        else
-          ({ g with buses := renumberNodeInBuses g.buses nd.nid nid n bs,
-                    nodes := g.nodes.set n { nd with nid := nid } }, .ok)
-  | .nodeAddIface n i =>
-    match g.nodes.get n with
-    | none => (g, .unsupported)
-    | some nd =>
-      if (g.ifaces.get i).isSome then (g, .unsupported)
-      else
-        ({ g with ifaces := g.ifaces.set i { node := n, number := nd.ifaceCount },
-                  nodes := g.nodes.set n { nd with ifaces := nd.ifaces ++ [i], ifaceCount := nd.ifaceCount + 1 } }, .ok)
-  | .nodeRemoveIface n k =>
-    match g.nodes.get n with
-    | none => (g, .unsupported)
-    | some nd =>
-      if k < 0 then (g, .err .negative)
-      else if k ≥ nd.ifaceCount then (g, .err .outOfBounds)
-      else
-        match nd.ifaces.find? (fun i => match g.ifaces.get i with | some e => e.number = k | none => false) with
-        | none => (g, .unsupported)
-        | some i =>
-          match g.ifaces.get i with
-          | none => (g, .unsupported)
-          | some ifc =>
-            let g1 : Option G := match ifc.parentBus with
-              | none => some g
-              | some b => match busRemoveIfaceCore g b n with
-                | (g', .ok) => some g'
-                | _ => none
-            match g1 with
-            | none => (g, .err .notFound)
-            | some g1 =>
-              let rest := nd.ifaces.filter (· ≠ i)
-              ({ g1 with ifaces := renumber g1.ifaces k rest,
-                         nodes := g1.nodes.set n { nd with ifaces := rest, ifaceCount := nd.ifaceCount - 1 } }, .ok)
-  | .msgNew m name mid size =>
-    if (g.msgs.get m).isSome then (g, .unsupported)
-    else ({ g with msgs := g.msgs.set m { name := name, mid := mid, sizeByte := size } }, .ok)
-  | .msgRename m name =>
-    match g.msgs.get m with
-    | none => (g, .unsupported)
-    | some msg =>
-      if msg.name = name then (g, .ok)
-      else match msg.sender with
-        | none => ({ g with msgs := g.msgs.set m { msg with name := name } }, .ok)
-        | some i =>
-          match g.ifaces.get i with
-          | none => (g, .unsupported)
-          | some ifc =>
-            if ifc.sentNames.has name then (g, .err .duplicated)
-            else
-              ({ g with ifaces := g.ifaces.set i { ifc with sentNames := (ifc.sentNames.remove msg.name).add name m },
-                        msgs := g.msgs.set m { msg with name := name } }, .ok)
-  | .msgSetId m mid =>
-    match g.msgs.get m with
-    | none => (g, .unsupported)
-    | some msg =>
-      if msg.mid = mid ∧ msg.static.isNone then (g, .ok)
-      else match msg.sender with
-        | none => ({ g with msgs := g.msgs.set m { msg with mid := mid, static := none } }, .ok)
-        | some i =>
-          match g.ifaces.get i with
-          | none => (g, .unsupported)
-          | some ifc =>
-            if ifc.sentIDs.has mid then (g, .err .duplicated)
-            else match msg.static with
-              | some c =>
-                let buses := match ifc.parentBus with
-                  | none => g.buses
-                  | some b => match g.buses.get b with
-                    | some bus => g.buses.set b { bus with staticIDs := bus.staticIDs.remove c }
-                    | none => g.buses
-                ({ g with buses := buses,
-                          ifaces := g.ifaces.set i { ifc with sentStatic := ifc.sentStatic.remove c, sentIDs := ifc.sentIDs.add mid m },
-                          msgs := g.msgs.set m { msg with mid := mid, static := none } }, .ok)
-              | none =>
-                ({ g with ifaces := g.ifaces.set i { ifc with sentIDs := (ifc.sentIDs.remove msg.mid).add mid m },
-                          msgs := g.msgs.set m { msg with mid := mid, static := none } }, .ok)
-  | .msgSetStatic m c =>
-    match g.msgs.get m with
-    | none => (g, .unsupported)
-    | some msg =>
-      match msg.sender with
-      | none => ({ g with msgs := g.msgs.set m { msg with mid := c, static := some c } }, .ok)
+        ({ g with buses := renumberNodeInBuses g.buses nd.nid nid n bs,
+                  nodes := g.nodes.set n { nd with nid := nid } }, .ok)
+
+def stepNodeAddIface (g : G) (n : Nat) (i : Nat) : G × Out :=
+  match g.nodes.get n with
+  | none => (g, .unsupported)
+  | some nd =>
+    if (g.ifaces.get i).isSome then (g, .unsupported)
+    else
+      ({ g with ifaces := g.ifaces.set i { node := n, number := nd.ifaceCount },
+                nodes := g.nodes.set n { nd with ifaces := nd.ifaces ++ [i], ifaceCount := nd.ifaceCount + 1 } }, .ok)
+
+def stepNodeRemoveIface (g : G) (n : Nat) (k : Int) : G × Out :=
+  match g.nodes.get n with
+  | none => (g, .unsupported)
+  | some nd =>
+    if k < 0 then (g, .err .negative)
+    else if k ≥ nd.ifaceCount then (g, .err .outOfBounds)
+    else
+      match nd.ifaces.find? (fun i => match g.ifaces.get i with | some e => e.number = k | none => false) with
+      | none => (g, .unsupported)
       | some i =>
         match g.ifaces.get i with
         | none => (g, .unsupported)
         | some ifc =>
-          let busClash : Bool := match ifc.parentBus with
-            | none => false
-            | some b => match g.buses.get b with | some bus => bus.staticIDs.has c | none => false
-          if ifc.sentStatic.has c then (g, .err .duplicated)
-          else if busClash then (g, .err .duplicated)
+          let g1 : Option G := match ifc.parentBus with
+            | none => some g
+            | some b => match busRemoveIfaceCore g b n with
+              | (g', .ok) => some g'
+              | _ => none
+          match g1 with
+          | none => (g, .err .notFound)
+          | some g1 =>
+            let rest := nd.ifaces.filter (· ≠ i)
+            ({ g1 with ifaces := renumber g1.ifaces k rest,
+                       nodes := g1.nodes.set n { nd with ifaces := rest, ifaceCount := nd.ifaceCount - 1 } }, .ok)
+
+def stepMsgNew (g : G) (m : Nat) (name : String) (mid : Nat) (size : Int) : G × Out :=
+  if (g.msgs.get m).isSome then (g, .unsupported)
+  else ({ g with msgs := g.msgs.set m { name := name, mid := mid, sizeByte := size } }, .ok)
+
+def stepMsgRename (g : G) (m : Nat) (name : String) : G × Out :=
+  match g.msgs.get m with
+  | none => (g, .unsupported)
+  | some msg =>
+    if msg.name = name then (g, .ok)
+    else match msg.sender with
+      | none => ({ g with msgs := g.msgs.set m { msg with name := name } }, .ok)
+      | some i =>
+        match g.ifaces.get i with
+        | none => (g, .unsupported)
+        | some ifc =>
+          if ifc.sentNames.has name then (g, .err .duplicated)
           else
-            let msgs' := g.msgs.set m { msg with mid := c, static := some c }
-            match msg.static with
-            | some old =>
-              let buses := match ifc.parentBus with
-                | none => g.buses
-                | some b => match g.buses.get b with
-                  | some bus => g.buses.set b { bus with staticIDs := (bus.staticIDs.remove old).add c m }
-                  | none => g.buses
-              ({ g with buses := buses,
-                        ifaces := g.ifaces.set i { ifc with sentStatic := (ifc.sentStatic.remove old).add c m },
-                        msgs := msgs' }, .ok)
-            | none =>
-              let buses := match ifc.parentBus with
-                | none => g.buses
-                | some b => match g.buses.get b with
-                  | some bus => g.buses.set b { bus with staticIDs := bus.staticIDs.add c m }
-                  | none => g.buses
-              ({ g with buses := buses,
-                        ifaces := g.ifaces.set i { ifc with sentIDs := ifc.sentIDs.remove msg.mid, sentStatic := ifc.sentStatic.add c m },
-                        msgs := msgs' }, .ok)
-  | .msgResize m k =>
-    match g.msgs.get m with
-    | none => (g, .unsupported)
-    | some msg =>
-      if k < 0 then (g, .err .negative)
-      else if msg.sizeByte = k then (g, .ok)
-      else
-        let onBus : Bool := match msg.sender with
-          | none => false
-          | some i => match g.ifaces.get i with | some ifc => ifc.parentBus.isSome | none => false
-        if onBus ∧ ¬ busSizeOK k then (g, .err .tooBig)
-        else ({ g with msgs := g.msgs.set m { msg with sizeByte := k } }, .ok)
-  | .ifaceAddSent i m =>
-    match g.ifaces.get i with
-    | none => (g, .unsupported)
-    | some ifc =>
-      match g.msgs.get m with
-      | none => (g, .err .nil)
-      | some msg =>
-        if msg.sender.isSome then (g, .unsupported)
-        else if ifc.sentNames.has msg.name then (g, .err .duplicated)
-        else
-          let bus := match ifc.parentBus with | some b => g.buses.get b | none => none
-          if bus.isSome ∧ ¬ busSizeOK msg.sizeByte then (g, .err .tooBig)
+            ({ g with ifaces := g.ifaces.set i { ifc with sentNames := (ifc.sentNames.remove msg.name).add name m },
+                      msgs := g.msgs.set m { msg with name := name } }, .ok)
+
+def stepMsgSetId (g : G) (m : Nat) (mid : Nat) : G × Out :=
+  match g.msgs.get m with
+  | none => (g, .unsupported)
+  | some msg =>
+    if msg.mid = mid ∧ msg.static.isNone then (g, .ok)
+    else match msg.sender with
+      | none => ({ g with msgs := g.msgs.set m { msg with mid := mid, static := none } }, .ok)
+      | some i =>
+        match g.ifaces.get i with
+        | none => (g, .unsupported)
+        | some ifc =>
+          if ifc.sentIDs.has mid then (g, .err .duplicated)
           else match msg.static with
             | some c =>
-              let busClash : Bool := match bus with | some e => e.staticIDs.has c | none => false
-              if ifc.sentStatic.has c ∨ busClash then (g, .err .duplicated)
-              else
-                let buses := match ifc.parentBus, bus with
-                  | some b, some e => g.buses.set b { e with staticIDs := e.staticIDs.add c m }
-                  | _, _ => g.buses
-                ({ g with buses := buses,
-                          ifaces := g.ifaces.set i { ifc with sentStatic := ifc.sentStatic.add c m, sent := ifc.sent.add m m,
-                                                               sentNames := ifc.sentNames.add msg.name m },
-                          msgs := g.msgs.set m { msg with sender := some i } }, .ok)
+              ({ g with buses := updStatic g.buses ifc.parentBus (fun r => r.remove c),
+                        ifaces := g.ifaces.set i { ifc with sentStatic := ifc.sentStatic.remove c, sentIDs := ifc.sentIDs.add mid m },
+                        msgs := g.msgs.set m { msg with mid := mid, static := none } }, .ok)
             | none =>
-              if ifc.sentIDs.has msg.mid then (g, .err .duplicated)
-              else
-                ({ g with ifaces := g.ifaces.set i { ifc with sentIDs := ifc.sentIDs.add msg.mid m, sent := ifc.sent.add m m,
-                                                               sentNames := ifc.sentNames.add msg.name m },
-                          msgs := g.msgs.set m { msg with sender := some i } }, .ok)
-  | .ifaceRemoveSent i m =>
-    match g.ifaces.get i with
-    | none => (g, .unsupported)
-    | some ifc =>
-      if ¬ ifc.sent.has m then (g, .err .notFound)
-      else match g.msgs.get m with
-        | none => (g, .unsupported)
-        | some msg =>
-          match msg.static with
-          | some c =>
-            let buses := match ifc.parentBus with
-              | none => g.buses
-              | some b => match g.buses.get b with
-                | some bus => g.buses.set b { bus with staticIDs := bus.staticIDs.remove c }
-                | none => g.buses
-            ({ g with buses := buses,
-                      ifaces := g.ifaces.set i { ifc with sent := ifc.sent.remove m, sentNames := ifc.sentNames.remove msg.name,
-                                                           sentStatic := ifc.sentStatic.remove c },
-                      msgs := g.msgs.set m { msg with sender := none } }, .ok)
-          | none =>
-            ({ g with ifaces := g.ifaces.set i { ifc with sent := ifc.sent.remove m, sentNames := ifc.sentNames.remove msg.name,
-                                                           sentIDs := ifc.sentIDs.remove msg.mid },
-                      msgs := g.msgs.set m { msg with sender := none } }, .ok)
-  | .ifaceRemoveAllSent i =>
-    match g.ifaces.get i with
-    | none => (g, .unsupported)
-    | some ifc =>
-      let ms := ifc.sent.vals
-      let buses := match ifc.parentBus with
-        | none => g.buses
-        | some b => match g.buses.get b with
-          | some bus => g.buses.set b { bus with staticIDs := removeKeys bus.staticIDs ((staticOf g ms).map (·.1)) }
-          | none => g.buses
-      ({ g with buses := buses, msgs := clearSenders g.msgs ms,
-                ifaces := g.ifaces.set i { ifc with sent := [], sentNames := [], sentIDs := [], sentStatic := [] } }, .ok)
-  | .ifaceAddRecv i m =>
-    -- `NodeInterface.AddReceivedMessage(message)`: the callee is the interface
-    match g.ifaces.get i with
-    | none => (g, .unsupported)
-    | some ifc =>
-      match g.msgs.get m with
-      | none => (g, .err .nil)
-      | some msg => addRecvCore g i ifc m msg
-  | .msgAddReceiver m i =>
-    -- `Message.AddReceiver(receiver)`: the callee is the message
-    match g.msgs.get m with
-    | none => (g, .unsupported)
-    | some msg =>
+              ({ g with ifaces := g.ifaces.set i { ifc with sentIDs := (ifc.sentIDs.remove msg.mid).add mid m },
+                        msgs := g.msgs.set m { msg with mid := mid, static := none } }, .ok)
+
+def stepMsgSetStatic (g : G) (m : Nat) (c : Nat) : G × Out :=
+  match g.msgs.get m with
+  | none => (g, .unsupported)
+  | some msg =>
+    match msg.sender with
+    | none => ({ g with msgs := g.msgs.set m { msg with mid := c, static := some c } }, .ok)
+    | some i =>
       match g.ifaces.get i with
-      | none => (g, .err .nil)
-      | some ifc => addRecvCore g i ifc m msg
-  | .ifaceRemoveRecv i m =>
-    match g.ifaces.get i with
-    | none => (g, .unsupported)
-    | some ifc =>
-      if ¬ ifc.received.has m then (g, .err .notFound)
-      else match g.msgs.get m with
-        | none => (g, .unsupported)
-        | some msg =>
-          ({ g with ifaces := g.ifaces.set i { ifc with received := ifc.received.remove m },
-                    msgs := g.msgs.set m { msg with receivers := msg.receivers.remove ifc.node } }, .ok)
-  | .ifaceRemoveAllRecv i =>
-    match g.ifaces.get i with
-    | none => (g, .unsupported)
-    | some ifc =>
-      ({ g with msgs := dropReceiver g.msgs ifc.node ifc.received.vals,
-                ifaces := g.ifaces.set i { ifc with received := [] } }, .ok)
-  | .msgRemoveReceiver m nodeId =>
+      | none => (g, .unsupported)
+      | some ifc =>
+        if ifc.sentStatic.has c then (g, .err .duplicated)
+        else if busStaticClash g.buses ifc.parentBus c then (g, .err .duplicated)
+        else
+          let msgs' := g.msgs.set m { msg with mid := c, static := some c }
+          match msg.static with
+          | some old =>
+            ({ g with buses := updStatic g.buses ifc.parentBus (fun r => (r.remove old).add c m),
+                      ifaces := g.ifaces.set i { ifc with sentStatic := (ifc.sentStatic.remove old).add c m },
+                      msgs := msgs' }, .ok)
+          | none =>
+            ({ g with buses := updStatic g.buses ifc.parentBus (fun r => r.add c m),
+                      ifaces := g.ifaces.set i { ifc with sentIDs := ifc.sentIDs.remove msg.mid, sentStatic := ifc.sentStatic.add c m },
+                      msgs := msgs' }, .ok)
+
+def stepMsgResize (g : G) (m : Nat) (k : Int) : G × Out :=
+  match g.msgs.get m with
+  | none => (g, .unsupported)
+  | some msg =>
+    if k < 0 then (g, .err .negative)
+    else if msg.sizeByte = k then (g, .ok)
+    else
+      let onBus : Bool := match msg.sender with
+        | none => false
+        | some i => match g.ifaces.get i with | some ifc => ifc.parentBus.isSome | none => false
+      if onBus ∧ ¬ busSizeOK k then (g, .err .tooBig)
+      else ({ g with msgs := g.msgs.set m { msg with sizeByte := k } }, .ok)
+
+def stepIfaceAddSent (g : G) (i : Nat) (m : Nat) : G × Out :=
+  match g.ifaces.get i with
+  | none => (g, .unsupported)
+  | some ifc =>
     match g.msgs.get m with
-    | none => (g, .unsupported)
+    | none => (g, .err .nil)
     | some msg =>
-      match msg.receivers.get nodeId with
-      | none => (g, .err .notFound)
-      | some i =>
-        match g.ifaces.get i with
-        | none => (g, .unsupported)
-        | some ifc =>
-          ({ g with ifaces := g.ifaces.set i { ifc with received := ifc.received.remove m },
-                    msgs := g.msgs.set m { msg with receivers := msg.receivers.remove ifc.node } }, .ok)
-  | .attrNewStr a =>
-    if (g.attrs.get a).isSome then (g, .unsupported)
-    else ({ g with attrs := g.attrs.set a { kind := .str } }, .ok)
-  | .attrNewInt a dflt mn mx =>
-    if (g.attrs.get a).isSome then (g, .unsupported)
-    else if mn > mx then (g, .err .greaterThan)
-    else if dflt > mx then (g, .err .greaterThan)
-    else if dflt < mn then (g, .err .lowerThan)
-    else ({ g with attrs := g.attrs.set a { kind := .int mn mx } }, .ok)
-  | .attrNewEnum a values =>
-    if (g.attrs.get a).isSome then (g, .unsupported)
-    else if values.isEmpty then (g, .err .nil)
-    else ({ g with attrs := g.attrs.set a { kind := .enm values } }, .ok)
-  | .assign k x a v =>
-    match getAttrs g k x with
-    | none => (g, .unsupported)
-    | some r =>
-      match g.attrs.get a with
-      | none => (g, .err .nil)
-      | some att =>
-        let bad : Option Cause := match v, att.kind with
-          | .int i, .int mn mx => if i < mn ∨ i > mx then some .outOfBounds else none
-          | .int _, _ => some .invalidType
-          | .flt, _ => some .invalidType
-          | .str _, .str => none
-          | .str s, .enm vs => if vs.contains s then none else some .notFound
-          | .str _, .int _ _ => some .invalidType
-        match bad with
-        | some c => (g, .err c)
-        | none =>
-          let g1 := setAttrs g k x (r.add a 0)
-          ({ g1 with attrs := g1.attrs.set a { att with refs := addRef att.refs x } }, .ok)
-  | .unassign k x a =>
-    match getAttrs g k x with
-    | none => (g, .unsupported)
-    | some r =>
-      if ¬ r.has a then (g, .err .notFound)
+      if msg.sender.isSome then (g, .unsupported)
+      else if ifc.received.has m then (g, .err .receiverIsSender)
+      else if ifc.sentNames.has msg.name then (g, .err .duplicated)
       else
-        let g1 := setAttrs g k x (r.remove a)
-        ({ g1 with attrs := dropAttrRefs g1.attrs x [a] }, .ok)
-  | .unassignAll k x =>
-    match getAttrs g k x with
-    | none => (g, .unsupported)
-    | some r =>
-      let g1 := setAttrs g k x []
-      ({ g1 with attrs := dropAttrRefs g1.attrs x r.keys }, .ok)
-  | .typeNew t =>
-    if (g.types.get t).isSome then (g, .unsupported) else ({ g with types := g.types.set t {} }, .ok)
-  | .unitNew u =>
-    if (g.units.get u).isSome then (g, .unsupported) else ({ g with units := g.units.set u {} }, .ok)
-  | .sigNew s t =>
-    if (g.sigs.get s).isSome then (g, .unsupported)
-    else match g.types.get t with
-      | none => (g, .err .nil)
+        let bus := match ifc.parentBus with | some b => g.buses.get b | none => none
+        if bus.isSome ∧ ¬ busSizeOK msg.sizeByte then (g, .err .tooBig)
+        else match msg.static with
+          | some c =>
+            if ifc.sentStatic.has c ∨ busStaticClash g.buses ifc.parentBus c then (g, .err .duplicated)
+            else
+              ({ g with buses := updStatic g.buses ifc.parentBus (fun r => r.add c m),
+                        ifaces := g.ifaces.set i { ifc with sentStatic := ifc.sentStatic.add c m, sent := ifc.sent.add m m,
+                                                             sentNames := ifc.sentNames.add msg.name m },
+                        msgs := g.msgs.set m { msg with sender := some i } }, .ok)
+          | none =>
+            if ifc.sentIDs.has msg.mid then (g, .err .duplicated)
+            else
+              ({ g with ifaces := g.ifaces.set i { ifc with sentIDs := ifc.sentIDs.add msg.mid m, sent := ifc.sent.add m m,
+                                                             sentNames := ifc.sentNames.add msg.name m },
+                        msgs := g.msgs.set m { msg with sender := some i } }, .ok)
+
+def stepIfaceRemoveSent (g : G) (i : Nat) (m : Nat) : G × Out :=
+  match g.ifaces.get i with
+  | none => (g, .unsupported)
+  | some ifc =>
+    if ¬ ifc.sent.has m then (g, .err .notFound)
+    else match g.msgs.get m with
+      | none => (g, .unsupported)
+      | some msg =>
+        match msg.static with
+        | some c =>
+          ({ g with buses := updStatic g.buses ifc.parentBus (fun r => r.remove c),
+                    ifaces := g.ifaces.set i { ifc with sent := ifc.sent.remove m, sentNames := ifc.sentNames.remove msg.name,
+                                                         sentStatic := ifc.sentStatic.remove c },
+                    msgs := g.msgs.set m { msg with sender := none } }, .ok)
+        | none =>
+          ({ g with ifaces := g.ifaces.set i { ifc with sent := ifc.sent.remove m, sentNames := ifc.sentNames.remove msg.name,
+                                                         sentIDs := ifc.sentIDs.remove msg.mid },
+                    msgs := g.msgs.set m { msg with sender := none } }, .ok)
+
+def stepIfaceRemoveAllSent (g : G) (i : Nat) : G × Out :=
+  match g.ifaces.get i with
+  | none => (g, .unsupported)
+  | some ifc =>
+    let ms := ifc.sent.vals
+    ({ g with buses := updStatic g.buses ifc.parentBus (fun r => removeKeys r ((staticOf g ms).map (·.1))), msgs := clearSenders g.msgs ms,
+              ifaces := g.ifaces.set i { ifc with sent := [], sentNames := [], sentIDs := [], sentStatic := [] } }, .ok)
+
+def stepIfaceAddRecv (g : G) (i : Nat) (m : Nat) : G × Out :=
+  -- `NodeInterface.AddReceivedMessage(message)`: the callee is the interface
+  match g.ifaces.get i with
+  | none => (g, .unsupported)
+  | some ifc =>
+    match g.msgs.get m with
+    | none => (g, .err .nil)
+    | some msg => addRecvCore g i ifc m msg
+
+def stepMsgAddReceiver (g : G) (m : Nat) (i : Nat) : G × Out :=
+  -- `Message.AddReceiver(receiver)`: the callee is the message
+  match g.msgs.get m with
+  | none => (g, .unsupported)
+  | some msg =>
+    match g.ifaces.get i with
+    | none => (g, .err .nil)
+    | some ifc => addRecvCore g i ifc m msg
+
+def stepIfaceRemoveRecv (g : G) (i : Nat) (m : Nat) : G × Out :=
+  match g.ifaces.get i with
+  | none => (g, .unsupported)
+  | some ifc =>
+    if ¬ ifc.received.has m then (g, .err .notFound)
+    else match g.msgs.get m with
+      | none => (g, .unsupported)
+      | some msg =>
+        ({ g with ifaces := g.ifaces.set i { ifc with received := ifc.received.remove m },
+                  msgs := g.msgs.set m { msg with receivers := msg.receivers.remove ifc.node } }, .ok)
+
+def stepIfaceRemoveAllRecv (g : G) (i : Nat) : G × Out :=
+  match g.ifaces.get i with
+  | none => (g, .unsupported)
+  | some ifc =>
+    ({ g with msgs := dropReceiver g.msgs ifc.node ifc.received.vals,
+              ifaces := g.ifaces.set i { ifc with received := [] } }, .ok)
+
+def stepMsgRemoveReceiver (g : G) (m : Nat) (nodeId : Nat) : G × Out :=
+  match g.msgs.get m with
+  | none => (g, .unsupported)
+  | some msg =>
+    match msg.receivers.get nodeId with
+    | none => (g, .err .notFound)
+    | some i =>
+      match g.ifaces.get i with
+      | none => (g, .unsupported)
+      | some ifc =>
+        ({ g with ifaces := g.ifaces.set i { ifc with received := ifc.received.remove m },
+                  msgs := g.msgs.set m { msg with receivers := msg.receivers.remove ifc.node } }, .ok)
+
+def stepAttrNewStr (g : G) (a : Nat) : G × Out :=
+  if (g.attrs.get a).isSome then (g, .unsupported)
+  else ({ g with attrs := g.attrs.set a { kind := .str } }, .ok)
+
+def stepAttrNewInt (g : G) (a : Nat) (dflt : Int) (mn : Int) (mx : Int) : G × Out :=
+  if (g.attrs.get a).isSome then (g, .unsupported)
+  else if mn > mx then (g, .err .greaterThan)
+  else if dflt > mx then (g, .err .greaterThan)
+  else if dflt < mn then (g, .err .lowerThan)
+  else ({ g with attrs := g.attrs.set a { kind := .int mn mx } }, .ok)
+
+def stepAttrNewEnum (g : G) (a : Nat) (values : List String) : G × Out :=
+  if (g.attrs.get a).isSome then (g, .unsupported)
+  else if values.isEmpty then (g, .err .nil)
+  else ({ g with attrs := g.attrs.set a { kind := .enm values } }, .ok)
+
+def stepAssign (g : G) (k : EKind) (x : Nat) (a : Nat) (v : AVal) : G × Out :=
+  match getAttrs g k x with
+  | none => (g, .unsupported)
+  | some r =>
+    match g.attrs.get a with
+    | none => (g, .err .nil)
+    | some att =>
+      let bad : Option Cause := match v, att.kind with
+        | .int i, .int mn mx => if i < mn ∨ i > mx then some .outOfBounds else none
+        | .int _, _ => some .invalidType
+        | .flt, _ => some .invalidType
+        | .str _, .str => none
+        | .str s, .enm vs => if vs.contains s then none else some .notFound
+        | .str _, .int _ _ => some .invalidType
+      match bad with
+      | some c => (g, .err c)
+      | none =>
+        let g1 := setAttrs g k x (r.add a 0)
+        ({ g1 with attrs := g1.attrs.set a { att with refs := addRef att.refs x } }, .ok)
+
+def stepUnassign (g : G) (k : EKind) (x : Nat) (a : Nat) : G × Out :=
+  match getAttrs g k x with
+  | none => (g, .unsupported)
+  | some r =>
+    if ¬ r.has a then (g, .err .notFound)
+    else
+      let g1 := setAttrs g k x (r.remove a)
+      ({ g1 with attrs := dropAttrRefs g1.attrs x [a] }, .ok)
+
+def stepUnassignAll (g : G) (k : EKind) (x : Nat) : G × Out :=
+  match getAttrs g k x with
+  | none => (g, .unsupported)
+  | some r =>
+    let g1 := setAttrs g k x []
+    ({ g1 with attrs := dropAttrRefs g1.attrs x r.keys }, .ok)
+
+def stepTypeNew (g : G) (t : Nat) : G × Out :=
+  if (g.types.get t).isSome then (g, .unsupported) else ({ g with types := g.types.set t {} }, .ok)
+
+def stepUnitNew (g : G) (u : Nat) : G × Out :=
+  if (g.units.get u).isSome then (g, .unsupported) else ({ g with units := g.units.set u {} }, .ok)
+
+def stepSigNew (g : G) (s : Nat) (t : Nat) : G × Out :=
+  if (g.sigs.get s).isSome then (g, .unsupported)
+  else match g.types.get t with
+    | none => (g, .err .nil)
+    | some ty =>
+      ({ g with sigs := g.sigs.set s { typ := t }, types := g.types.set t { ty with refs := addRef ty.refs s } }, .ok)
+
+def stepSigSetType (g : G) (s : Nat) (t : Nat) : G × Out :=
+  match g.sigs.get s with
+  | none => (g, .unsupported)
+  | some sg =>
+    match g.types.get t with
+    | none => (g, .err .nil)
+    | some _ =>
+      let types1 := dropDefRef g.types (some sg.typ) s
+      match types1.get t with
+      | none => (g, .unsupported)
       | some ty =>
-        ({ g with sigs := g.sigs.set s { typ := t }, types := g.types.set t { ty with refs := addRef ty.refs s } }, .ok)
-  | .sigSetType s t =>
-    match g.sigs.get s with
-    | none => (g, .unsupported)
-    | some sg =>
-      match g.types.get t with
-      | none => (g, .err .nil)
-      | some _ =>
-        let types1 := match g.types.get sg.typ with
-          | some old => g.types.set sg.typ { old with refs := eraseRef old.refs s }
-          | none => g.types
-        match types1.get t with
-        | none => (g, .unsupported)
-        | some ty =>
-          ({ g with types := types1.set t { ty with refs := addRef ty.refs s },
-                    sigs := g.sigs.set s { sg with typ := t } }, .ok)
-  | .sigSetUnit s u =>
-    match g.sigs.get s with
-    | none => (g, .unsupported)
-    | some sg =>
-      let units1 := match sg.unit with
-        | some old => match g.units.get old with
-          | some e => g.units.set old { e with refs := eraseRef e.refs s }
-          | none => g.units
-        | none => g.units
-      match u with
+        ({ g with types := types1.set t { ty with refs := addRef ty.refs s },
+                  sigs := g.sigs.set s { sg with typ := t } }, .ok)
+
+def stepSigSetUnit (g : G) (s : Nat) (u : Option Nat) : G × Out :=
+  match g.sigs.get s with
+  | none => (g, .unsupported)
+  | some sg =>
+    let units1 := dropDefRef g.units sg.unit s
+    match u with
+    | none => ({ g with units := units1, sigs := g.sigs.set s { sg with unit := none } }, .ok)
+    | some uid =>
+      match units1.get uid with
       | none => ({ g with units := units1, sigs := g.sigs.set s { sg with unit := none } }, .ok)
-      | some uid =>
-        match units1.get uid with
-        | none => ({ g with units := units1, sigs := g.sigs.set s { sg with unit := none } }, .ok)
-        | some e =>
-          ({ g with units := units1.set uid { e with refs := addRef e.refs s },
-                    sigs := g.sigs.set s { sg with unit := some uid } }, .ok)
+      | some e =>
+        ({ g with units := units1.set uid { e with refs := addRef e.refs s },
+                  sigs := g.sigs.set s { sg with unit := some uid } }, .ok)
+
+def step (g : G) : Op → G × Out
+  | .netNew n name => stepNetNew g n name
+  | .netAddBus n b => stepNetAddBus g n b
+  | .netRemoveBus n b => stepNetRemoveBus g n b
+  | .netRemoveAllBuses n => stepNetRemoveAllBuses g n
+  | .busNew b name => stepBusNew g b name
+  | .busRename b name => stepBusRename g b name
+  | .busAddIface b i => stepBusAddIface g b i
+  | .busRemoveIface b nodeId => stepBusRemoveIface g b nodeId
+  | .busRemoveAllIfaces b => stepBusRemoveAllIfaces g b
+  | .busSetBuilder b c => stepBusSetBuilder g b c
+  | .builderNew c => stepBuilderNew g c
+  | .nodeNew n name nid count ifs => stepNodeNew g n name nid count ifs
+  | .nodeRename n name => stepNodeRename g n name
+  | .nodeSetId n nid => stepNodeSetId g n nid
+  | .nodeAddIface n i => stepNodeAddIface g n i
+  | .nodeRemoveIface n k => stepNodeRemoveIface g n k
+  | .msgNew m name mid size => stepMsgNew g m name mid size
+  | .msgRename m name => stepMsgRename g m name
+  | .msgSetId m mid => stepMsgSetId g m mid
+  | .msgSetStatic m c => stepMsgSetStatic g m c
+  | .msgResize m k => stepMsgResize g m k
+  | .ifaceAddSent i m => stepIfaceAddSent g i m
+  | .ifaceRemoveSent i m => stepIfaceRemoveSent g i m
+  | .ifaceRemoveAllSent i => stepIfaceRemoveAllSent g i
+  | .ifaceAddRecv i m => stepIfaceAddRecv g i m
+  | .msgAddReceiver m i => stepMsgAddReceiver g m i
+  | .ifaceRemoveRecv i m => stepIfaceRemoveRecv g i m
+  | .ifaceRemoveAllRecv i => stepIfaceRemoveAllRecv g i
+  | .msgRemoveReceiver m nodeId => stepMsgRemoveReceiver g m nodeId
+  | .attrNewStr a => stepAttrNewStr g a
+  | .attrNewInt a dflt mn mx => stepAttrNewInt g a dflt mn mx
+  | .attrNewEnum a values => stepAttrNewEnum g a values
+  | .assign k x a v => stepAssign g k x a v
+  | .unassign k x a => stepUnassign g k x a
+  | .unassignAll k x => stepUnassignAll g k x
+  | .typeNew t => stepTypeNew g t
+  | .unitNew u => stepUnitNew g u
+  | .sigNew s t => stepSigNew g s t
+  | .sigSetType s t => stepSigSetType g s t
+  | .sigSetUnit s u => stepSigSetUnit g s u
 
 def run (g : G) (ops : List Op) : G := ops.foldl (fun g o => (step g o).1) g
 
